@@ -265,7 +265,9 @@ func runC11(c *Ctx) {
 			G("SigToPub returned no error", IsNil(`^call:lib/crypto\.SigToPub\(hash, signature\)#1$`)))
 		ok := false
 		for _, in := range findInstrs(fn, AnyReturn()) {
-			if pathOf(in.(*ssa.Return).Results[0]) == "call:(lib/common.Address).Equal(addr, call:lib/crypto.PubkeyToAddress(*call:lib/crypto.SigToPub(hash, signature)#0))" {
+			if anySpelling(in.(*ssa.Return).Results[0], func(p string) bool {
+				return p == "call:(lib/common.Address).Equal(addr, call:lib/crypto.PubkeyToAddress(*call:lib/crypto.SigToPub(hash, signature)#0))"
+			}) {
 				ok = true
 			}
 		}
